@@ -1,7 +1,9 @@
 #!/usr/bin/env python3
 """import confirmed sub-agent mutations from /tmp/wt-<id>/_out/mut<k> into /verif/seeded/<id>-<k>/"""
 import json, os, re, shutil, sys, glob
-logs = "".join(open(f).read() for f in sorted(glob.glob('/tmp/confirm-batch*.log')))
+PREFIX = os.environ.get('WT_PREFIX', '/tmp/wt-')
+OFFSET = int(os.environ.get('K_OFFSET', '0'))
+logs = "".join(open(f).read() for f in sorted(glob.glob(os.environ.get('CONFIRM_LOGS', '/tmp/confirm-batch*.log'))))
 blocks = re.split(r"^== ", logs, flags=re.M)[1:]
 for b in blocks:
     head, *rest = b.split("\n")
@@ -9,8 +11,8 @@ for b in blocks:
     body = "\n".join(rest)
     if "CONFIRMED=1" not in body:
         print("not confirmed:", pid, k); continue
-    src = f"/tmp/wt-{pid}/_out/mut{k}"
-    dst = f"/verif/seeded/{pid}-{k}"
+    src = f"{PREFIX}{pid}/_out/mut{k}"
+    dst = f"/verif/seeded/{pid}-{int(k) + OFFSET}"
     if not os.path.isdir(src):
         continue
     os.makedirs(dst, exist_ok=True)
@@ -21,9 +23,9 @@ for b in blocks:
     meta_p = os.path.join(dst, "meta.json")
     meta = json.load(open(meta_p)) if os.path.exists(meta_p) else {}
     meta.update({
-        "property": pid, "mutation": int(k), "origin": "fresh sub-agent given only the property text and a scratch worktree",
+        "property": pid, "mutation": int(k) + OFFSET, "origin": "fresh sub-agent given only the property text and a scratch worktree",
         "needs_to_manifest": (re.search(r"(?is)(manifest|trigger|needs)[^\n]*\n(.{0,600})", notes) or [None, None, notes[:400]])[2].strip()[:600],
-        "confirmed_by_me": {"command": "tools/confirm_mut.sh %s %s (scratch worktree /tmp/wt-%s)" % (pid, k, pid),
+        "confirmed_by_me": {"command": "tools/confirm_mut.sh %s %s (scratch worktree %s%s)" % (pid, k, PREFIX, pid),
                             "demo_on_unchanged": re.search(r"DEMO-UNCHANGED: (.*)", body).group(1),
                             "suite_with_patch": re.search(r"SUITE-MUTATED:\s+(.*)", body).group(1),
                             "demo_with_patch": re.search(r"DEMO-MUTATED:\s+(.*)", body).group(1)[-160:]},
